@@ -10,7 +10,7 @@ CHECKS = {
  "C09": ("DNSResult.DNSRewrites over sequences of 0..3 (thorough 0..4/5) rewrite rules with symbolic exception/important flags and payloads of six kinds, against the order-independent reference filter; result list untouched",
          "rules built field by field, re-parsed from text on replay; netip globals imported from the native process; engine; z3"),
  "C06": ("NewMatchingResult+GetBasicResult (k<=2/3 request and s<=2 referrer rules) and GetDNSBasicRule (k<=3/4) over arbitrary symbolic rules against the order-free documented precedence; selected rule never outranked (C07); verdict unchanged by adding a rule with its badfilter twin at any positions (C08)",
-         "InvRule; MatchAll results are the harness lists (engine wiring outside); engine; z3"),
+         "InvRule; Engine.MatchRequest / NetworkEngine.Match are executed with MatchAll returning the harness lists; engine; z3"),
  "C18": ("NewRule on hosts-file lines: address from a menu of 5 literals, 1..2 (thorough 1..3) names of symbolic bytes, symbolic blank/tab separators, comments attached or after blanks with symbolic bytes, trailing blanks, bare domains; Hostnames/IP/list id exact and Match(q) iff q listed for symbolic q",
          "netip.ParseAddr native on concrete literals, modelled as rejecting on digit-free symbolic tokens; engine; z3"),
  "C17": ("ExtractHostname on grammar URLs with symbolic scheme/host/port/path/query/fragment bytes; effectiveTLDPlusOne against the real body of publicsuffix.EffectiveTLDPlusOne on symbolic hosts; every field of NewRequest/NewRequestForHostname incl. third-party symmetry and the 4 KiB cap",
@@ -36,9 +36,9 @@ CHECKS = {
  "C12": ("NewRule on lines of 0..5/7 symbolic bytes over six syntax alphabets: no run-time panic on any path; nothing only for blank/comment lines, else a rule with Text()==TrimSpace(line) and the given list id, or an error; the parsing helpers and every loadOption name with symbolic values likewise",
          "bounded no-panic claim for the listed functions, not for long real-world lines; netip/regexp contract stubs; paths into findRegexpShortcut with symbolic input are cut and counted; engine; z3"),
  "C11": ("index packing injective and invertible for all int32 pairs; in-memory list content of 0..4/6 symbolic bytes scanned through the real RuleScanner+bufio.Reader+strings.Reader and retrieved through the real RetrieveRule: scanned sequence == line-by-line parse (kind, text, list id, index), RetrieveRule(idx) == scanned rule, CRLF invariance; storage of 1..3 lists with arbitrary int32 ids serves each index from the list and offset it names, duplicates rejected",
-         "rule classification is an uninterpreted function of the trimmed line; file-backed lists (os.File short reads) are NOT modelled or claimed; engine; z3"),
- "C20": ("findBodyInjectionIndex/isMatchFound on bodies of 0..9/13 symbolic bytes and on 16 KiB-boundary bodies (filler plus 9 symbolic bytes, marker straddling the window edge): index == first in-window marker (ASCII case-insensitive) else -1; the splice arithmetic keeps every byte in order",
-         "filterHTML I/O, Latin-1 round trip, headers, Content-Length and the template are NOT claimed; engine; z3"),
+         "rule classification is an uninterpreted function of the trimmed line; file-backed lists are compared with in-memory lists on the same symbolic content through a file model with short reads and a shrunken read buffer; engine; z3"),
+ "C20": ("findBodyInjectionIndex/isMatchFound on bodies of 0..9/13 symbolic bytes and on 16 KiB-boundary bodies (filler plus 9 symbolic bytes, marker straddling the window edge): index == first in-window marker (ASCII case-insensitive) else -1; filterHTML with its environment stubbed on bodies of 0..7/10 symbolic ASCII bytes: output == body with one tag before the first in-window marker else unchanged, Content-Length, Content-Encoding removed, original body closed",
+         "decompression / Latin-1 coding / template are contracts (identity on ASCII, fixed tag); bodies with bytes >= 0x80 not covered; engine; z3"),
  "C14": ("two goroutines x one operation on the four protected objects (rule cache cold/warm, file-backed list handle and buffer, lazily compiled pattern cold/warm, pooled request): the operation is executed symbolically recording lock events and shared reads/writes per path, and for every pair of traces the solver decides whether two conflicting accesses can be unordered by happens-before in some schedule (clocks are solver variables); a potential race is replayed under go test -race",
          "bounded to 2 goroutines x 1 operation; race freedom and exclusive use only (answer equality under concurrency not decided); mutex and pool contracts assumed; engine; z3"),
  "C16": ("unbounded in the fields the function reads (64-bit option word, 32-bit mask, exception flag fully symbolic under the parser's representation invariant); counterexamples replayed from rule text through the real parser",
